@@ -57,6 +57,10 @@ var (
 	// Use errors.Is to check if returned error is ErrDuplicatedValueKey.
 	ErrDuplicatedValueKey = errors.New("duplicated value key")
 
+	// ErrUnexpectedData is wrapped and returned by DefaultParser if input contains another data after JSON value.
+	// Use errors.Is to check if returned error is ErrUnexpectedData.
+	ErrUnexpectedData = errors.New("unexpected data after value")
+
 	// ErrDuplicatedUnitKey is wrapped and returned by DefaultParser if RuleEnableJSONObjectForm is present and input contains JSON object with duplicated "unit" key.
 	// Use errors.Is to check if returned error is ErrDuplicatedUnitKey.
 	ErrDuplicatedUnitKey = errors.New("duplicated unit key")
